@@ -557,3 +557,121 @@ def dpt_native(dpt: type[DPTBase], spec: Any) -> bool:
     if fam == "string":
         return k == "str"
     return False
+
+
+# --------------------------------------------------------------------------- value programs
+#
+# One static Hypothesis strategy for *all* targets: a "program" is target-agnostic data that a
+# target resolves against its own range / schema / grid into a value spec.  (A strategy per
+# target - 1000+ of them - costs tens of milliseconds each to build and validate.)
+
+
+def _num_program() -> st.SearchStrategy:
+    return st.tuples(
+        st.sampled_from(["in", "in-int", "lo", "hi", "lo-frac", "hi-frac", "below", "above", "abs"]),
+        st.integers(-6, 6),
+        st.floats(0, 1, allow_nan=False),
+        numbers_strategy(),
+    )
+
+
+def raw_strategy() -> st.SearchStrategy:
+    """Values for the helpers called without a DPT: 6-bit ints, byte lists / tuples / bytes."""
+    return st.one_of(
+        st.integers(-2, 70),
+        st.lists(st.integers(0, 255), max_size=16),
+        st.lists(st.integers(0, 255), max_size=16).map(lambda xs: T(*xs)),
+        st.lists(st.integers(-3, 300), max_size=6),
+        st.binary(max_size=16).map(B),
+        st.integers(250, 260).map(lambda n: [0] * n),
+    )
+
+
+def datetime_strategy() -> st.SearchStrategy:
+    return st.one_of(
+        st.times().map(lambda t: {"$": "time", "v": [t.hour, t.minute, t.second, t.microsecond]}),
+        st.dates().map(lambda d: {"$": "date", "v": [d.year, d.month, d.day]}),
+        st.datetimes().map(lambda d: {"$": "datetime", "v": [d.year, d.month, d.day, d.hour, d.minute, d.second]}),
+    )
+
+
+def program_strategy() -> st.SearchStrategy:
+    num = _num_program()
+    scal = scalar_strategy()
+    field_mod = st.tuples(st.integers(0, 15), st.sampled_from(["valid", "bad", "num", "scalar"]), st.integers(0, 40), num, scal)
+    return st.one_of(
+        st.tuples(st.just("generic"), generic_strategy()),
+        st.tuples(st.just("grid"), st.integers(0, 2000)),
+        st.tuples(st.just("num"), num),
+        st.tuples(st.just("num"), num),
+        st.tuples(st.just("fields"), st.booleans(), st.integers(0, 7), st.lists(field_mod, max_size=3), st.lists(st.integers(0, 15), max_size=2)),
+        st.tuples(st.just("seq"), st.lists(num, min_size=4, max_size=4), st.booleans()),
+        st.tuples(st.just("text"), string_strategy()),
+        st.tuples(st.just("special"), st.just("raw"), raw_strategy()),
+        st.tuples(st.just("special"), st.just("datetime"), datetime_strategy()),
+    )
+
+
+def resolve_num(prog: tuple, rng: tuple[float, float, float] | None) -> Any:
+    where, k, frac, absolute = prog
+    if rng is None or where == "abs":
+        return _num(absolute) if not isinstance(absolute, dict) else absolute
+    lo, hi, res = rng
+    lo, hi = _finite_bounds(lo, hi)
+    span = (hi - lo) or 1
+    if where == "in":
+        v = lo + frac * (hi - lo)
+    elif where == "in-int":
+        v = round(lo + frac * (hi - lo))
+    elif where == "lo":
+        v = lo + k * res
+    elif where == "hi":
+        v = hi + k * res
+    elif where == "lo-frac":
+        v = lo + (k + frac) * res
+    elif where == "hi-frac":
+        v = hi + (k + frac) * res
+    elif where == "below":
+        v = lo - (1 + 20 * frac) * span
+    else:
+        v = hi + (1 + 20 * frac) * span
+    if isinstance(v, float) and v.is_integer() and abs(v) < 2**53 and k % 2 == 0:
+        v = int(v)
+    return _num(v)
+
+
+_SCHEMA_CACHE: dict[type, tuple[list[dict], dict, str]] = {}
+
+
+def _schema_of(dpt: type[DPTComplex]) -> tuple[list[dict], dict, str]:
+    if dpt not in _SCHEMA_CACHE:
+        _SCHEMA_CACHE[dpt] = (complex_schema(dpt), _field_enums(dpt.data_type), dpt.data_type.__name__)
+    return _SCHEMA_CACHE[dpt]
+
+
+def resolve_fields(prog: tuple, dpt: type[DPTComplex]) -> Any:
+    """('fields', as_obj, base_pick, [(fpos, mode, a, numprog, scalar)], drops) -> dict / object spec."""
+    _, as_obj, base_pick, mods, drops = prog
+    schema, enums, cname = _schema_of(dpt)
+    kw: dict[str, Any] = {}
+    for i, f in enumerate(schema):
+        valid = _field_valid(f, enums, as_obj)
+        kw[f["name"]] = valid[(base_pick + i) % len(valid)]
+    for fpos, mode, a, numprog, scalar in mods:
+        f = schema[fpos % len(schema)]
+        if mode == "valid":
+            valid = _field_valid(f, enums, as_obj)
+            kw[f["name"]] = valid[a % len(valid)]
+        elif mode == "bad":
+            bad = _field_bad(f)
+            kw[f["name"]] = bad[a % len(bad)]
+        elif mode == "num":
+            rng = (f.get("value_min", 0), f.get("value_max", 255), f.get("resolution", 1)) if f["type"] in ("integer", "float") else (0, 1, 1)
+            kw[f["name"]] = resolve_num(numprog, rng)
+        else:
+            kw[f["name"]] = scalar
+    if as_obj:
+        return O(cname, **kw)
+    for dpos in drops:
+        kw.pop(schema[dpos % len(schema)]["name"], None)
+    return D(**kw)
